@@ -6,6 +6,7 @@
 use crate::reference::zipbuild::{build, ESpec, Enc, Spec};
 use crate::reference::zipparse::{self, Opts};
 use crate::util::{fnv, guard, hex, panic_site, par_for, Stats};
+use crate::zipapi::{exec_append, Call, FOpts};
 use crate::Args;
 use serde_json::{json, Value};
 use std::io::{Cursor, Read};
@@ -216,6 +217,21 @@ fn check_cfg(c: &Cfg, seed: u64, flips: bool, st: &mut Stats, order: u64) {
             (1, _) => st.viol("ae1-crc-not-enforced", format!("{what}: AE-1 entry with a wrong CRC field gives {}", match &r { Attempt::Clean(x) => format!("a completed read of {} bytes", x.len()), o => format!("{o:?}") }), case(json!("wrong-crc")), order),
             (_, Attempt::Clean(x)) if *x == content => st.class("ae2-wrong-crc:ignored"),
             (_, _) => st.viol("ae2-crc-not-ignored", format!("{what}: AE-2 entry with a non-zero CRC field gives {r:?}"), case(json!("wrong-crc")), order),
+        }
+    }
+    // the archive taken through an append round by the crate's writer (new_append, one small entry added, finish): the
+    // independent encryptor's entry is still in it and still decrypts to its content
+    {
+        st.evals += 1;
+        let (res, again) = exec_append(&bytes, &[Call::StartFile { name: "added".into(), opts: FOpts::m(8) }, Call::Write(b"added later".to_vec()), Call::Finish], &[]);
+        if res.iter().all(|r| r.is_ok()) {
+            match attempt(&again, 1, Some(&c.pw), 0) {
+                Attempt::Clean(x) if x == content => st.class("after-append-round:content"),
+                Attempt::Panic(p) => st.viol(format!("panic/{}", panic_site(&p)), format!("{what} after an append round: {p}"), case(json!("append-round")), order),
+                other => st.viol(format!("right-password-fails/after-append-round/AE-{}/m{}", c.version, c.method), format!("{what}: after the archive went through new_append + finish the correct password gives {}", match &other { Attempt::Clean(x) => format!("{} other bytes", x.len()), o => format!("{o:?}") }), case(json!("append-round")), order),
+            }
+        } else {
+            st.class("append-round-refused");
         }
     }
     // the same entry written in one pass (bit 3, data descriptor with / without signature): right password -> content; the CRC
